@@ -357,7 +357,7 @@ func (s *Sess) CreateURR(req *ie.IE) error {
 			break
 		}
 	}
-	s.URRIDs[id] = &URRInfo{
+	urrInfo := &URRInfo{
 		MeasureMethod: report.MeasureMethod{
 			DURAT: req.HasDURAT(),
 			VOLUM: req.HasVOLUM(),
@@ -371,6 +371,13 @@ func (s *Sess) CreateURR(req *ie.IE) error {
 			MNOP: mInfo.HasMNOP(),
 		},
 	}
+	// PDRs created earlier may already name this URR: they refer to it
+	for _, pdrInfo := range s.PDRIDs {
+		if _, ok := pdrInfo.RelatedURRIDs[id]; ok {
+			urrInfo.refPdrNum++
+		}
+	}
+	s.URRIDs[id] = urrInfo
 
 	err = s.rnode.driver.CreateURR(s.LocalID, req)
 	if err != nil {
